@@ -938,6 +938,10 @@ class SMTPClient(basic.LineReceiver, policies.TimeoutMixin):
     # None, perform no timeout checking.
     timeout = None
 
+    # Whether the next chunk given to transformChunk begins a line of the
+    # message (true at the start of the message and after each newline).
+    _atLineStart = True
+
     def __init__(self, identity, logsize=10):
         if isinstance(identity, str):
             identity = identity.encode("ascii")
@@ -1075,6 +1079,7 @@ class SMTPClient(basic.LineReceiver, policies.TimeoutMixin):
             self.sendLine(b"RCPT TO:" + quoteaddr(self.lastAddress))
 
     def smtpState_data(self, code, resp):
+        self._atLineStart = True
         s = basic.FileSender()
         d = s.beginFileTransfer(self.getMailData(), self.transport, self.transformChunk)
 
@@ -1109,7 +1114,14 @@ class SMTPClient(basic.LineReceiver, policies.TimeoutMixin):
         being made sending the message body, the client will not time out.
         """
         self.resetTimeout()
-        return chunk.replace(b"\n", b"\r\n").replace(b"\r\n.", b"\r\n..")
+        chunk = chunk.replace(b"\n", b"\r\n").replace(b"\r\n.", b"\r\n..")
+        # A period at the very beginning of the message, or right after a
+        # newline which ended the previous chunk, starts a line too.
+        if self._atLineStart and chunk[:1] == b".":
+            chunk = b"." + chunk
+        if chunk:
+            self._atLineStart = chunk[-1:] == b"\n"
+        return chunk
 
     def finishedFileTransfer(self, lastsent):
         if lastsent != b"\n":
